@@ -579,6 +579,7 @@ func c02Replay(args []string) error {
 	attempts := fs.Int("attempts", 3, "attempts per behaviour until it is followed exactly")
 	shard := fs.Int("shard", 0, "replay only the behaviours whose index modulo -of equals this")
 	of := fs.Int("of", 1, "number of shards (one process each: the hook scheduler is process wide)")
+	fewerFrom := fs.Int("fewerfrom", 0, "behaviours from this index on (counterexample schedules) get at most 2 attempts (0: none)")
 	stopAfter := fs.Int("stopafter", 0, "stop after this many behaviours with a violated predicate (0: never); a hung client costs a deadline per behaviour")
 	if err := fs.Parse(args); err != nil {
 		return err
@@ -621,7 +622,11 @@ func c02Replay(args []string) error {
 			return err
 		}
 		var res upResult
-		for a := 1; a <= *attempts; a++ {
+		tries := *attempts
+		if *fewerFrom > 0 && id >= *fewerFrom && tries > 2 {
+			tries = 2
+		}
+		for a := 1; a <= tries; a++ {
 			res = env.replayOne(id, steps, reqs)
 			res.Attempt = a
 			if res.Exact || len(res.Lost) > 0 || len(res.Double) > 0 || len(res.Misdirected) > 0 || res.StopperHung {
